@@ -98,6 +98,18 @@ def _inplace_offenders(fd):
                                                                               for a in body_nodes):
                 continue        # the parameter name was rebound to a fresh value before the update
             out.append((n.lineno, ast.unparse(n)[:60]))
+    # element / slice / mask stores into an argument array, and numpy calls writing into it through out=
+    def rebound_before(name, lineno):
+        return name in fresh_rebound and any(isinstance(a, ast.Assign) and a.lineno < lineno and any(isinstance(t, ast.Name) and t.id == name for t in a.targets) for a in body_nodes)
+    for n in body_nodes:
+        tgts = n.targets if isinstance(n, ast.Assign) else ([n.target] if isinstance(n, ast.AugAssign) else [])
+        for t in tgts:
+            if isinstance(t, ast.Subscript) and isinstance(t.value, ast.Name) and t.value.id in alias and not rebound_before(t.value.id, n.lineno):
+                out.append((n.lineno, ast.unparse(n)[:60]))
+        if isinstance(n, ast.Call):
+            for kw in n.keywords:
+                if kw.arg == 'out' and isinstance(kw.value, ast.Name) and kw.value.id in alias and not rebound_before(kw.value.id, n.lineno):
+                    out.append((n.lineno, ast.unparse(n)[:60]))
     return out
 
 
